@@ -736,4 +736,4 @@ MANIFEST = dict(
     technique="Lean 4 proof (refinement of a structural specification by an event-driven state machine, by mutual "
               "structural induction) + model/implementation correspondence + direct oracle",
 )
-READY = False
+READY = True
